@@ -30,10 +30,10 @@ PROPS = {
     "C02": P(["valid", "valid", "oic", "sie", "fresh"], 102,
              rule="Workload mixes stored no-cache / no-cache=\"fields\" / must-revalidate / immutable / SWR / SIE with request no-cache / max-age / max-stale / min-fresh / only-if-cached, validators present or not, and origin answers 304 / 200 / 5xx / transport error to the validation.",
              require_probes=["C02/unvalidated-reuse", "C02/validation-request-wrong"], technique="deterministic simulation: seeded histories against a scripted origin, permission oracle over the recorded upstream-call log"),
-    "C04": P(["vary", "vary", "conc"], 104,
+    "C04": P(["vary", "vary", "conc", "swrreuse"], 104,
              rule="Few URIs, many requests per URI, origin Vary scripts that change over time (none, one or several fields, order changes, '*'), selecting header values built from meaning tables incl. name-like concatenations; 1-2 concurrent clients.",
              require_probes=["C04/wrong-variant"], technique="deterministic simulation: seeded histories of variant-index evolution, equivalence-by-construction oracle"),
-    "C05": P(["fidelity", "fidelity", "conc"], 105,
+    "C05": P(["fidelity", "fidelity", "conc", "swrrace"], 105,
              rule="Origin responses in all framings (Content-Length, chunked with trailers, close-delimited, HTTP/1.0, HTTP/2-shaped), arbitrary body bytes 0..64KiB (1MiB thorough), multi-valued / hop-by-hop / Connection-nominated fields, wire chunking with delays, all three backends with short disk reads.",
              require_probes=["C05/stored-copy-differs", "C05/miss-body-differs"], technique="deterministic simulation: simulated wire + simulated disk, byte-exact provenance oracle"),
     "C06": P(["store", "store", "faults"], 106,
